@@ -9,8 +9,9 @@
    (3) A bound RELATIVE to the exact variance is impossible ([no_relative_variance_bound]: three equal
        values 0.1 have variance 0 but sumOfDiffs > 0); the bound is absolute, in units of
        max|x|^2 - exactly the scale Corr/C08Single.v uses.
-   (4) stddev^2 (what the correspondence compares) is within 1e-9 * max|x|^2 of the exact variance
-       for up to 10^6 values ([tolerance_sound_variance]). *)
+   (4) stddev^2 (what the correspondence compares) is within 1e-9 * Var + 5 * (n u)^2 * max|x|^2 of the
+       exact variance for up to 10^6 values ([tolerance_sound_variance]): relative to the variance
+       up to the squared error of the mean - the tolerance Corr/C08Single.var_close uses. *)
 From Coq Require Import List ZArith Reals Floats Lia Lra.
 From Flocq Require Import Core.Core IEEE754.BinarySingleNaN IEEE754.PrimFloat.
 From GS Require Import Model.FloatSum.
@@ -211,14 +212,18 @@ Section Variance.
     eapply Rle_trans; [apply Rabs_pos|apply (HM x Hx)].
   Qed.
 
-  (* the computed mean is within 2 G0 M of the exact one *)
-  Lemma mean_close : Rabs (FR mh - m) <= 2 * G0 * M.
+  (* the computed mean is within 2 n u M of the exact one *)
+  Lemma mean_close : Rabs (FR mh - m) <= 2 * INR n * u * M.
   Proof.
     pose proof n_pos as Pn. pose proof M_pos as PM. pose proof u_pos as Hu.
     assert (Hc0 : FR count <> 0) by (rewrite Hcount; lra).
     pose proof (go_mean_total_bound' xs count Hn0 Hf Hcum Fcount Fmh Hc0 Hmq) as B.
     rewrite Hcount in B.
-    destruct (gamma_le (n - 1) ltac:(lia)) as [g0 g1].
+    assert (HN : INR n <= 1000000) by (rewrite INR_IZR_INZ; apply IZR_le; exact Hn).
+    assert (Hn1 : INR (n - 1) = INR n - 1) by (rewrite minus_INR by lia; reflexivity).
+    assert (Hu6 : 2 * 1000000 * u <= 1) by (rewrite u_val; lra).
+    pose proof (pow1p_le u (n - 1) Hu ltac:(rewrite Hn1; nra)) as g1. rewrite Hn1 in g1.
+    pose proof (pow1p_ge1 u (n - 1) Hu) as g0.
     set (g := (1 + u) ^ (n - 1) - 1) in *.
     assert (HS : Rsumabs xs <= INR n * M).
     { unfold Rsumabs. rewrite <- (map_map FR Rabs). pose proof (rabs_sum_le M (map FR xs)) as Q.
@@ -229,10 +234,10 @@ Section Variance.
     { apply Rmult_le_reg_r with (INR n); [exact Pn|]. unfold Rdiv. rewrite Rmult_assoc, Rinv_l by lra. lra. }
     assert (PSn : 0 <= Rsumabs xs / INR n) by (apply Rmult_le_pos; [exact PS|apply Rlt_le, Rinv_0_lt_compat; exact Pn]).
     eapply Rle_trans; [exact B|].
-    assert (Hu1 : 2 * 1000010 * u <= 1) by (rewrite u_val; lra).
-    assert (g + u * (1 + g) <= 2 * (2 * 1000010 * u)) by nra.
-    apply Rle_trans with ((2 * (2 * 1000010 * u)) * (Rsumabs xs / INR n)); [apply Rmult_le_compat_r; assumption|].
-    assert (0 <= 2 * 1000010 * u) by lra. nra.
+    assert (Hg1 : g <= 1) by nra.
+    assert (Hc : g + u * (1 + g) <= 2 * INR n * u) by nra.
+    apply Rle_trans with ((2 * INR n * u) * (Rsumabs xs / INR n)); [apply Rmult_le_compat_r; assumption|].
+    assert (0 <= 2 * INR n * u) by nra. nra.
   Qed.
 
   Lemma variance_le : 0 <= exact_variance <= M * M.
@@ -249,7 +254,8 @@ Section Variance.
   Qed.
 
   Theorem tolerance_sound_variance :
-    Rabs (FR (go_stddev xs count) * FR (go_stddev xs count) - exact_variance) <= / 1000000000 * (M * M).
+    Rabs (FR (go_stddev xs count) * FR (go_stddev xs count) - exact_variance)
+      <= / 1000000000 * exact_variance + 5 * ((INR n * u) * (INR n * u)) * (M * M).
   Proof.
     pose proof n_pos as Pn. pose proof M_pos as PM. pose proof u_pos as Hu. pose proof mean_close as Hm.
     pose proof variance_le as [V0 V1]. pose proof xs_nonempty as Hx.
@@ -267,8 +273,8 @@ Section Variance.
     { unfold exact_variance. field. lra. }
     rewrite HV in Sh. set (Var := exact_variance) in *.
     set (e2 := (m - FR mh) * (m - FR mh)) in *.
-    assert (He2 : 0 <= e2 <= 4 * G0 * G0 * (M * M)).
-    { unfold e2. split; [apply Rle_0_sqr|]. rewrite Rabs_minus_sym in Hm. assert (0 <= G0) by lra.
+    assert (He2 : 0 <= e2 <= 4 * ((INR n * u) * (INR n * u)) * (M * M)).
+    { unfold e2. split; [apply Rle_0_sqr|]. rewrite Rabs_minus_sym in Hm. assert (0 <= INR n * u) by nra.
       replace ((m - FR mh) * (m - FR mh)) with (Rabs (m - FR mh) * Rabs (m - FR mh)) by (unfold Rabs; destruct (Rcase_abs (m - FR mh)); ring).
       pose proof (Rabs_pos (m - FR mh)). nra. }
     (* variance = sod / count *)
@@ -318,11 +324,13 @@ Section Variance.
     destruct He2 as [e20 e21]. destruct G0s as [G00 G01]. destruct HqW as [HqW1 HqW2].
     destruct Hvq' as [Hvq1 Hvq2]. destruct Hsv as [Hsv1 Hsv2].
     set (s2 := v * ((1 + es) * (1 + es))) in *. set (P := M * M) in *. set (GG := 2 * 1000010 * u) in *.
-    assert (GG2 : GG * GG <= 23 / 100000000000 * (23 / 100000000000)) by nra.
-    assert (e2s : e2 <= 22 / 100000000000000000000 * P) by nra.
+    set (E := (INR n * u) * (INR n * u) * P) in *.
+    assert (E0 : 0 <= E) by (unfold E; apply Rmult_le_pos; [apply Rle_0_sqr|exact P0]).
+    assert (e2E : e2 <= 4 * E) by (unfold E; lra).
     assert (HW1 : GG * (Var + e2) <= 23 / 100000000000 * (Var + e2)) by nra.
     assert (Hq1 : u * q <= 12 / 100000000000000000 * q) by nra.
     assert (Hv1 : 3 * u * v <= 36 / 100000000000000000 * v) by nra.
+    replace (5 * (INR n * u * (INR n * u)) * P) with (5 * E) by (unfold E; ring).
     split; lra.
   Qed.
 End Variance.
